@@ -1,7 +1,8 @@
 (** C06 - conversions are lossless or refused; lossy ones are correctly rounded and say so.
     ONLY statements pinned here; proofs live in Dashu.Conv.*. *)
 From Dashu Require Import Base.Prelude Float.RoundSpec Float.Contract Float.Model Conv.ConvSpec Conv.ConvModel Conv.ConvPrimProofs
-  Conv.ConvArith Conv.ConvIeee Conv.ConvEncodeProofs Conv.ConvStickyProofs Conv.ConvDecodeProofs.
+  Conv.ConvArith Conv.ConvIeee Conv.ConvEncodeProofs Conv.ConvStickyProofs Conv.ConvDecodeProofs Conv.ConvFindings.
+From DashuGen Require Import RoundTables.
 Open Scope Z_scope.
 
 Theorem C06_ubig_to_prim : forall w sg TW v,
@@ -112,3 +113,40 @@ Theorem C06_encode_decode_f64 : forall bits man exp, 0 <= bits < 2 ^ 64 ->
   decode_spec F64 bits = DFin man exp -> bits <> 2 ^ 63 -> encode_asis P64 man exp = (bits, Eq).
 Proof. exact encode_decode_f64. Qed.
 Print Assumptions C06_encode_decode_f64.
+
+(** open findings: the as-is models leave the specification on the recorded witnesses *)
+Theorem C06_rat_to_float_double_rounding_refuted :
+  rat_to_fbig 10 2 MHalfAway 9449 1000 = AInexact 95 (-1) AddOne /\
+  rat_to_fbig_spec 10 2 MHalfAway 9449 1000 = (94, -1, Lt) /\
+  rat_to_fbig_twice 10 2 MHalfAway 9449 1000 = true.
+Proof. exact rat_to_fbig_refuted. Qed.
+Print Assumptions C06_rat_to_float_double_rounding_refuted.
+
+Theorem C06_fbig_to_float_subnormal_refuted :
+  fbig_to_float P32 2 MHalfEven 3 (-151) = Ok (FR 1 (Some NoOp)) /\
+  ieee_round F32 MHalfEven 3 (2 ^ 151) = (1, Gt) /\
+  flag_of_error 1 Gt = Some AddOne.
+Proof. exact fbig_to_float_subnormal_refuted. Qed.
+Print Assumptions C06_fbig_to_float_subnormal_refuted.
+
+Theorem C06_fbig_to_float_subnormal_value_refuted :
+  fbig_to_float P32 2 MHalfEven (2 ^ 25 + 23) (-153) = Ok (FR (2 ^ 21 + 2) (Some NoOp)) /\
+  fst (ieee_round F32 MHalfEven (2 ^ 25 + 23) (2 ^ 153)) = 2 ^ 21 + 1.
+Proof. exact fbig_to_float_subnormal_value_refuted. Qed.
+Print Assumptions C06_fbig_to_float_subnormal_value_refuted.
+
+Theorem C06_fbig_to_float_division_route_refuted :
+  fbig_to_float P64 10 MHalfEven 4899 (-7) = Panic Undocumented /\
+  ieee_round F64 MHalfEven 4899 (10 ^ 7) = (4557657753232426611, Gt).
+Proof. exact fbig_to_float_division_refuted. Qed.
+Print Assumptions C06_fbig_to_float_division_route_refuted.
+
+Theorem C06_int_to_float_refuses_representable_refuted :
+  int_try_to_float P32 16777218 = CLossOfPrecision /\ exact_to_float F32 16777218 1 = Some 1266679809.
+Proof. exact int_try_to_float_refuted. Qed.
+Print Assumptions C06_int_to_float_refuses_representable_refuted.
+
+Theorem C06_rat_to_float_fast_two_ulps_refuted :
+  rat_to_float_fast P32 (-4486) 73509287 = fst (ieee_rne F32 (-4486) 73509287) + 2.
+Proof. exact rat_to_float_fast_refuted. Qed.
+Print Assumptions C06_rat_to_float_fast_two_ulps_refuted.
